@@ -35,17 +35,26 @@ SHAPES = {
     "DS": [["@"]],                     # a directory whose only file carries the directory's own name
     "DL": [["a.bin"], ["sub", "b.bin"], ["mirror", "a.bin"], ["zz-link"]],    # hard links inside the payload
     "DD": [["CD1", "cover.jpg"], ["CD2", "cover.jpg"], ["x.bin"]],          # same name, (made) identical bytes
+    # names on which os.path / pathlib / splitext / shell-like handling could disagree
+    "DX": [["a.tar.gz"], ["-dash"], ["x.torrent"], ["trailing.dot."], ["%41 #frag?q=1&r"], ["[br]{ace}", "semi;colon"],
+           ["~tilde"], ["..two-dots"], ["sub.d", "...x"], ["sub.d", "CON"]],
     "DM": [["m%02d" % k] if k % 3 else ["g%d" % (k // 3), "m%02d" % k] for k in range(14)],   # many files
 }
 
 
-def mk_tree(shape, sizes, name=None, modes=None):
+# root names: several dots, hidden, blank inside, a name ending in ".torrent", non-ASCII
+FILE_NAMES = ["single.bin", "archive.tar.gz", ".bashrc", "noext", "ünï cödé.bin", "x.torrent"]
+DIR_NAMES = [None, "rel.v1.0", ".hidden-root", "sp ace", "t.torrent", "ünï-rööt"]
+
+
+def mk_tree(shape, sizes, name=None, modes=None, nv=0):
+    """nv: variant of the root name (0 = the default name)."""
     if shape == "S1":
-        t = {"name": name or "single.bin", "single": True, "files": [{"path": [], "size": sizes[0]}]}
+        t = {"name": name or FILE_NAMES[nv % len(FILE_NAMES)], "single": True, "files": [{"path": [], "size": sizes[0]}]}
         if modes:
             t["files"][0]["mode"] = modes[0]
         return t
-    nm = name or ("t" + shape)
+    nm = name or DIR_NAMES[nv % len(DIR_NAMES)] or ("t" + shape)
     paths = [[nm if c == "@" else c for c in p] for p in SHAPES[shape]]
     t = {"name": nm, "single": False,
          "files": [{"path": p, "size": s} for p, s in zip(paths, sizes)]}
@@ -87,7 +96,7 @@ def gen_trees(tier, rng, plens, quick_n, thorough_n, need_nonempty=True):
                       (8 * M, (M + 7, 9 * M + 3, 100 * 1024))):      # a piece reaching > 4 MiB into the next file
         out.append(({1: "S1", 2: "D2", 3: "D3"}[len(szs)], szs, Pbig))
     n = thorough_n if tier == "thorough" else quick_n
-    shapes = ["D3", "D4", "D2n", "D2", "DN", "DNf", "DC", "DU", "D5", "DNFC", "DS", "DL", "DM"]
+    shapes = ["D3", "D4", "D2n", "D2", "DN", "DNf", "DC", "DU", "D5", "DNFC", "DS", "DL", "DM", "DX"]
     for _ in range(n):
         P = rng.choice(plens)
         A = alphabet(P)
@@ -261,7 +270,7 @@ class C01(CreateProp):
         out = []
         for n, (sh, sizes, P) in enumerate(gen_trees(tier, rng, plens(tier), 260, 12000)):
             creator = "TorrentFile" if n % 4 else "cli"
-            out.append({"creator": creator, "version": 1, "P": P, "tree": mk_tree(sh, sizes, modes=modes_for(n, sizes)), "clauses": cl,
+            out.append({"creator": creator, "version": 1, "P": P, "tree": mk_tree(sh, sizes, modes=modes_for(n, sizes), nv=(n // 2) % 6 if n % 4 == 1 else 0), "clauses": cl,
                         "progress": (0, 0, 1, 2)[n % 4] if n % 5 == 0 else 0})
         # the model-checked universe replayed into the real Hasher
         out += hasher1_universe("MC_HasherV1.cfg" if tier != "thorough" else "MC_HasherV1_4files.cfg",
@@ -292,7 +301,7 @@ class C15(CreateProp):
         for n, (sh, sizes, P) in enumerate(gen_trees(tier, rng, plens(tier), 260, 12000)):
             creator = "TorrentFile" if n % 4 else "cli"
             out.append({"creator": creator, "version": 1, "align": True, "P": P,
-                        "tree": mk_tree(sh, sizes, modes=modes_for(n, sizes)), "clauses": cl,
+                        "tree": mk_tree(sh, sizes, modes=modes_for(n, sizes), nv=(n // 2) % 6 if n % 4 == 1 else 0), "clauses": cl,
                         "progress": (1, 2)[(n // 3) % 2] if n % 3 == 0 else 0})
         out += hasher1_universe("MC_HasherV1.cfg" if tier != "thorough" else "MC_HasherV1_4files.cfg",
                                 ["C15.scaled", "M01.scaled"], rng, None if tier == "thorough" else 1500, aligns=(True,))
@@ -328,7 +337,7 @@ class C02(CreateProp):
                   ("TorrentFileHybrid", 3), ("cli", 2), ("cli", 3)]
         for n, (sh, sizes, P) in enumerate(gen_trees(tier, rng, plens(tier), 200, 10000)):
             creator, v = combos[n % len(combos)]
-            out.append({"creator": creator, "version": v, "P": P, "tree": mk_tree(sh, sizes, modes=modes_for(n, sizes)), "clauses": cl,
+            out.append({"creator": creator, "version": v, "P": P, "tree": mk_tree(sh, sizes, modes=modes_for(n, sizes), nv=(n // 2) % 6 if n % 4 == 1 else 0), "clauses": cl,
                         "progress": (1, 2)[n % 2] if n % 7 == 0 else 0})
         out += hashers_scaled(["C02.hashers"], tier)
         return out
@@ -356,7 +365,7 @@ class C03(CreateProp):
         combos = [("TorrentAssembler", 3), ("TorrentFileHybrid", 3), ("cli", 3)]
         for n, (sh, sizes, P) in enumerate(gen_trees(tier, rng, plens(tier), 200, 10000)):
             creator, v = combos[n % len(combos)]
-            out.append({"creator": creator, "version": v, "P": P, "tree": mk_tree(sh, sizes, modes=modes_for(n, sizes)), "clauses": cl,
+            out.append({"creator": creator, "version": v, "P": P, "tree": mk_tree(sh, sizes, modes=modes_for(n, sizes), nv=(n // 2) % 6 if n % 4 == 1 else 0), "clauses": cl,
                         "progress": (1, 2)[n % 2] if n % 7 == 0 else 0})
         return out
 
@@ -442,7 +451,7 @@ class C08(CreateProp):
             sizes = tuple(rng.choice(A) for _ in range(k))
             if sum(sizes) == 0:
                 sizes = (P + 1,) * k
-            tree = mk_tree(sh, sizes)
+            tree = mk_tree(sh, sizes, nv=b % 6 if b % 2 else 0)
             infoopts = [{}, {"private": True}, {"source": "SRC", "comment": "a comment é"},
                         {"private": True, "source": "x", "comment": "y"}][b % 4]
             g += 1
@@ -454,7 +463,7 @@ class C08(CreateProp):
                 base["align"] = True
                 if sizes[-1] % P == 0:                 # ... and a last file that does not fill its piece
                     sizes = sizes[:-1] + (sizes[-1] + 1 + b,)
-                    base["tree"] = tree = mk_tree(sh, sizes)
+                    base["tree"] = tree = mk_tree(sh, sizes, nv=b % 6 if b % 2 else 0)
             members = [dict(base)]                                   # canonical: absolute path
             dir_sp = ["rel", "dotslash", "updown", "absdot", "dbl", "symparent", "symparentrel"] + (
                 [] if sh == "S1" else ["trail", "trail2", "slashdot", "dot"])
